@@ -33,6 +33,9 @@ TABLE = [
     ("TRIO_MINIMUM_COLLECTABLE_BALANCE", PN + "stableswap_3pool/src/commands.rs",
      r"const MINIMUM_COLLECTABLE_BALANCE: Uint128 = Uint128::new\(" + NUM + r"u128\)"),
     ("PAIR_NEWTON_ITERATIONS", PN + "terraswap_pair/src/helpers.rs", r"const NEWTON_ITERATIONS: u64 = " + NUM),
+    ("PAIR_N_COINS", PN + "terraswap_pair/src/helpers.rs", r"const N_COINS: Uint256 = Uint256::from_u128\(" + NUM + r"\)"),
+    ("PAIR_COMPUTE_D_ITERATIONS", PN + "terraswap_pair/src/helpers.rs",
+     r"for _ in 0\.\." + NUM + r" \{\s*let mut d_prod = d;"),
     ("PAIR_MIN_AMP", PN + "terraswap_pair/src/contract.rs", r"pub const MIN_AMP: u64 = " + NUM),
     ("PAIR_MAX_AMP", PN + "terraswap_pair/src/contract.rs", r"pub const MAX_AMP: u64 = " + NUM),
     ("TRIO_MIN_AMP", PN + "stableswap_3pool/src/contract.rs", r"pub const MIN_AMP: u64 = " + NUM),
@@ -58,6 +61,19 @@ TABLE = [
      r"const FLOW_EXPANSION_BUFFER: u64 = " + NUM),
     ("INCENTIVE_FLOW_EXPANSION_LIMIT", PN + "incentive/src/execute/expand_flow.rs",
      r"const FLOW_EXPANSION_LIMIT: u64 = " + NUM),
+    ("INCENTIVE_WEIGHT_MIN_DURATION", PN + "incentive/src/weight.rs", r"if !\(" + NUM + r"\.\.="),
+    ("INCENTIVE_WEIGHT_MAX_DURATION", PN + "incentive/src/weight.rs", r"\.\.=" + NUM + r"\)\.contains"),
+    ("INCENTIVE_WEIGHT_SQ_COEFF", PN + "incentive/src/weight.rs",
+     r"unbonding_duration_squared\.checked_mul\(Decimal256::raw\(" + NUM + r"\)\)"),
+    ("INCENTIVE_WEIGHT_SQ_DENOM", PN + "incentive/src/weight.rs",
+     r"unbonding_duration_mul\.checked_div\(Decimal256::raw\(" + NUM + r"\)\)"),
+    ("INCENTIVE_WEIGHT_LIN_COEFF", PN + "incentive/src/weight.rs",
+     r"\.checked_mul\(Decimal256::raw\(" + NUM + r"\)\)\?\s*\.checked_div"),
+    ("INCENTIVE_WEIGHT_LIN_DENOM", PN + "incentive/src/weight.rs",
+     r"\.checked_mul\(Decimal256::raw\([0-9_]+\)\)\?\s*\.checked_div\(Decimal256::raw\(" + NUM + r"\)\)"),
+    ("INCENTIVE_WEIGHT_CONST_NUM", PN + "incentive/src/weight.rs", r"Decimal256::from_ratio\(" + NUM + r"u64, "),
+    ("INCENTIVE_WEIGHT_CONST_DEN", PN + "incentive/src/weight.rs",
+     r"Decimal256::from_ratio\([0-9_]+u64, " + NUM + r"u64\)"),
     ("POOL_FACTORY_MAX_LIMIT", PN + "terraswap_factory/src/state.rs", r"const MAX_LIMIT: u32 = " + NUM),
     ("POOL_FACTORY_DEFAULT_LIMIT", PN + "terraswap_factory/src/state.rs", r"const DEFAULT_LIMIT: u32 = " + NUM),
     ("VAULT_FACTORY_MAX_LIMIT", LH + "vault-network/vault_factory/src/state.rs", r"const MAX_LIMIT: u32 = " + NUM),
